@@ -198,8 +198,13 @@ def run_impl(c):
         comp = Comp({}).generate(path=tuple(c['path']))
         return {'comp': dump_comp(comp)}
     if kind == 'merge':
-        me = Composite(realise_parts(c['self']))
-        templates = [Composite(realise_parts(t)) for t in c['templates']]
+        def partial(cfg):
+            # a config that simply omits what it does not have (as Composer.generate() omits 'state'):
+            # the composite then starts from the class-level defaults
+            return {k: v for k, v in cfg.items() if v or k in ('processes', 'topology')}
+        witness = Composite(partial({'processes': {}, 'topology': {}}))     # built before anything is merged
+        me = Composite(partial(realise_parts(c['self'])))
+        templates = [Composite(partial(realise_parts(t))) for t in c['templates']]
         problems = []
         for i, m in enumerate(c['merges']):
             before = [snapshot(t) for t in templates]
@@ -222,6 +227,16 @@ def run_impl(c):
                 if shared:
                     problems.append('after merge %d the receiver shares %d nested dict object(s) with composite %d'
                                     % (i, len(shared), ti))
+        # composites that took no part must still be empty: one built earlier, one built now, and the class defaults
+        later = Composite(partial({'processes': {}, 'topology': {}}))
+        for name, x in (('built before the merges', witness), ('built after the merges', later)):
+            if any(x[k] for k in ('processes', 'steps', 'flow', 'topology', 'state')):
+                problems.append('a composite %s from an empty partial config holds %s'
+                                % (name, str({k: x[k] for k in ('processes', 'steps', 'flow', 'topology', 'state') if x[k]})[:300]))
+        if any(Composite.defaults[k] for k in Composite.defaults):
+            problems.append('Composite.defaults was written to: %r' % (str(Composite.defaults)[:300],))
+            for k in Composite.defaults:          # keep the cases of this run independent of each other
+                Composite.defaults[k] = {}
         return {'comp': dump_comp(me), 'problems': problems}
     # entry points
     from vivarium.core.engine import Engine
